@@ -49,7 +49,7 @@ impl Serialize for KerningInnerSerializer<'_> {
         let mut map = serializer.serialize_map(Some(self.inner_kerning.len()))?;
         for (k, v) in self.inner_kerning {
             if (v - v.round()).abs() < f64::EPSILON {
-                map.serialize_entry(k, &(*v as i32))?;
+                map.serialize_entry(k, &(v.round() as i32))?;
             } else {
                 map.serialize_entry(k, v)?;
             }
